@@ -1,4 +1,5 @@
 import gfapy
+import math
 import re
 
 def unsafe_decode(string):
@@ -11,9 +12,18 @@ def decode(string):
   validate_encoded(string)
   return unsafe_decode(string)
 
-def validate_decoded(integer):
-  pass
-  # always valid
+def validate_decoded(obj):
+  if isinstance(obj, str):
+    validate_encoded(obj)
+  elif isinstance(obj, bool) or not isinstance(obj, (int, float)):
+    raise gfapy.TypeError(
+      "the class {} is incompatible with the datatype\n"
+      .format(obj.__class__.__name__)+
+      "(accepted classes: str, int, float)")
+  elif isinstance(obj, float) and not math.isfinite(obj):
+    raise gfapy.ValueError(
+      "{} cannot be represented in a float field\n".format(repr(obj))+
+      "(the value must be finite)")
 
 def validate_encoded(string):
   if not re.match(r"^[-+]?[0-9]*\.?[0-9]+([eE][-+]?[0-9]+)?\Z", string):
@@ -29,10 +39,6 @@ def encode(obj):
   if isinstance(obj, str):
     validate_encoded(obj)
     return obj
-  elif isinstance(obj, int) or isinstance(obj, float):
-    return str(obj)
   else:
-    raise gfapy.TypeError(
-      "the class {} is incompatible with the datatype\n"
-      .format(obj.__class__.__name__)+
-      "(accepted classes: str, int, float)")
+    validate_decoded(obj)
+    return str(obj)
